@@ -1,7 +1,68 @@
-(* Observation commands: filled in by the corresponding property work; definitions only. *)
+(* Observation commands of the marker domain (C07, C09).  Definitions only.
+   k.eval  text mode entry*   mode = N (evaluate() without a mapping) | M (with one);
+                              entry = "d" key "=" value   a detected value (default_environment())
+                                    | "o" key "=" value   a supplied value
+                                    | "o" key "!"         a supplied None
+                              -> T | F | U (UndefinedComparison) | I (InvalidMarker) | ? (outside the modelled domain) | C
+   k.str   text               -> I | ? | "S" str(Marker(text))
+   k.eq    a b                -> I | ? | T | F        (Marker(a) == Marker(b)) *)
 From Coq Require Import List NArith Bool String.
 Import ListNotations.
-Require Import Show.
+Require Import Show MText MkModel MkEval.
 Open Scope N_scope.
 
-Definition run_marker (cmd : list N) (args : list (list N)) : option (list N) := None.
+Fixpoint split1 (c0 : N) (s : list N) : option (list N * list N) :=
+  match s with
+  | [] => None
+  | c :: t => if c =? c0 then Some ([], t)
+              else match split1 c0 t with Some (a, b) => Some (c :: a, b) | None => None end
+  end.
+Definition entry := (bool * (list N * option (list N)))%type.     (* (is_override, (key, value)) *)
+Definition parse_entry (s : list N) : option entry :=
+  match s with
+  | tag :: body =>
+      let ov := tag =? 111 in
+      match split1 61 body with
+      | Some (k, v) => Some (ov, (k, Some v))
+      | None => match rev body with
+                | c :: rk => if c =? 33 then Some (ov, (rev rk, None)) else None
+                | [] => None
+                end
+      end
+  | [] => None
+  end.
+Fixpoint entries (l : list (list N)) : list entry :=
+  match l with [] => [] | s :: t => match parse_entry s with Some e => e :: entries t | None => entries t end end.
+Definition defaults_of (es : list entry) : list (list N * list N) :=
+  flat_map (fun e : entry => if fst e then [] else match snd (snd e) with Some v => [(fst (snd e), v)] | None => [] end) es.
+Definition overrides_of (es : list entry) : envmap :=
+  flat_map (fun e : entry => if fst e then [snd e] else []) es.
+
+Definition show_eres (r : eres) : list N :=
+  match r with EBool true => [84] | EBool false => [70] | EUndef => [85] | ECrash => [67] end.
+
+Definition obs_eval (args : list (list N)) : list N :=
+  match Marker (nth_str 0 args) with
+  | MInvalid => [73]
+  | MOracle => [63]
+  | MOk m =>
+      let es := entries (skipn 2 args) in
+      let ov := if seqb (nth_str 1 args) [78] then None else Some (overrides_of es) in
+      show_eres (evaluate m (defaults_of es) ov)
+  end.
+
+Definition obs_str (s : list N) : list N :=
+  match Marker s with MInvalid => [73] | MOracle => [63] | MOk m => 83 :: format_marker m end.
+
+Definition obs_eq (a b : list N) : list N :=
+  match Marker a, Marker b with
+  | MOk x, MOk y => show_bool (marker_eq x y)
+  | MInvalid, _ => [73] | _, MInvalid => [73]
+  | _, _ => [63]
+  end.
+
+Definition run_marker (cmd : list N) (args : list (list N)) : option (list N) :=
+  if seqb cmd (asc "k.eval") then Some (obs_eval args)
+  else if seqb cmd (asc "k.str") then Some (obs_str (nth_str 0 args))
+  else if seqb cmd (asc "k.eq") then Some (obs_eq (nth_str 0 args) (nth_str 1 args))
+  else None.
